@@ -25,8 +25,8 @@ def run(prog, rep):
     rep.rule("C07.4", "lock wiring: lock semaphore opened on the same platform key with value 1, CREATE iff this handle created the segment; lock/unlock -> acquire/release of shm->sem; take_ownership forwards")
     rep.rule("C07.5", "mapping length frozen: the field munmap uses as length equals the mmap length and is not changed between the mapping and the unmapping")
     u = prog.unit("pshm-posix.c")
-    ch = u.fn("pp_shm_create_handle")
-    cl = u.fn("pp_shm_clean_handle")
+    ch = u.fn("pp_shm_create_handle").inlined()
+    cl = u.fn("pp_shm_clean_handle").inlined()
     sp = ch.param_names()[0]
     KEY = "%s->platform_key" % sp
     mmaps = [(b, i, c) for (b, i, c) in ch.calls() if c.get("callee") == "mmap"]
@@ -214,14 +214,14 @@ def run(prog, rep):
 
     # C07.4 lock wrappers
     for fname, native in (("p_shm_lock", "p_semaphore_acquire"), ("p_shm_unlock", "p_semaphore_release")):
-        fn = u.fn(fname)
+        fn = u.fn(fname).inlined()
 
         def h(arg, f):
             return (guards.key(arg) == "%s->sem" % f.param_names()[0], "not the handle's own semaphore")
         check_wrapper(rep, "C07.4", fn, native, handle=h, success=("==", 1), failure=("==", 0))
         other = [c for (b, i, c) in fn.calls() if c.get("callee") in ("p_semaphore_acquire", "p_semaphore_release") and c.get("callee") != native]
         rep.ob("C07.4", fn, "wire:only", not other, "only %s is called" % native if not other else "%s also calls %s" % (fname, other[0].get("callee")), fn.loc[0])
-    to = u.fn("p_shm_take_ownership")
+    to = u.fn("p_shm_take_ownership").inlined()
     fw = [c for (b, i, c) in to.calls() if c.get("callee") == "p_semaphore_take_ownership" and guards.key(c["args"][0]) == "%s->sem" % to.param_names()[0]]
     rep.ob("C07.4", to, "take_ownership", len(fw) == 1 and "p_shm_take_ownership" in writers,
            "take_ownership marks the segment and forwards to the lock semaphore" if len(fw) == 1 else "take_ownership does not forward to the lock semaphore", to.loc[0])
@@ -269,7 +269,7 @@ def run(prog, rep):
                                       "(part of the mapping stays mapped after p_shm_free)" % (f.name, sp, lf), line(n)))
     # with a separate length field there must be a copy in the create function
     if lf is not None and lf != size_field:
-        copies = [n for (b, i, n) in ch.nodes() if n["k"] == "asg" and field_of(n["l"]) == lf]
+        copies = [n for (b, i, n) in ch.nodes() if n["k"] == "asg" and field_of(n["l"]) == lf and guards.key(n["r"]) == SIZEK]
         if not copies:
             problems5.append(("the length field %s used by munmap is never set from the mapped length" % lf, line(mu)))
     for (msg, ln) in problems5:
